@@ -122,3 +122,16 @@ Qed.
 (* the plain iteration too: every reported span is ordered and inside the text *)
 Theorem spans_ordered kf r s : ordered 0 (length s) (spans_c kf r s) /\ map span_of (spans_c kf r s) = spans kf r s.
 Proof. split; [apply spans_c_ordered | apply spans_c_spans]. Qed.
+
+(* the matches are disjoint pieces of the text: together they are no longer than the text (no pattern makes `find` return more characters than it was given) *)
+Lemma ordered_total s : forall sp pos, ordered pos (length s) sp ->
+  (length (concat (map (fun ab => slice s (fst ab) (snd ab)) (map span_of sp))) + pos <= length s \/ sp = [])%nat.
+Proof.
+  induction sp as [|[[a b] c] rest IH]; intros pos H; [right; reflexivity|]. left. destruct H as [[H1 [H2 H3]] H4].
+  cbn [map concat span_of fst snd]. rewrite app_length. assert (L : (length (slice s a b) <= b - a)%nat) by (unfold slice; apply firstn_le_length).
+  destruct (IH b H4) as [E|E]; [lia | subst rest; cbn; lia].
+Qed.
+Theorem find_total_length kf r s : (length (concat (re_find kf r s)) <= length s)%nat.
+Proof.
+  unfold re_find. rewrite <- spans_c_spans. destruct (ordered_total s (spans_c kf r s) 0 (spans_c_ordered kf r s)) as [E|E]; [lia|]. rewrite E. cbn. lia.
+Qed.
